@@ -69,6 +69,9 @@ def tasks(tier, seed):
         out.append({"fn": "fresh", "kwargs": {"model": model}, "label": f"cache/{model}"})
         for case in REWRITES:
             out.append({"fn": "fresh", "kwargs": {"model": model, "case": case}, "label": f"cache/{model}/{case}"})
+    for ish, osh in (((1, 2), (2, 2)), ((2, 1), (2, 3)), ((2, 3), (2, 2))):
+        for stamped in (True, False):
+            out.append({"fn": "loader", "kwargs": {"ish": list(ish), "osh": list(osh), "stamped": stamped}, "label": f"loader/{ish[0]}x{ish[1]},{osh[0]}x{osh[1]}/{'stamped' if stamped else 'no_stamp'}"})
     for i in range(0, len(FORMAT_CASES), 6):
         out.append({"fn": "formats_witness", "kwargs": {"cases": [list(c) for c in FORMAT_CASES[i:i + 6]]}, "label": f"witness/formats/{i // 6}", "kind": "direct"})
     return out
@@ -125,6 +128,40 @@ def place(ish, osh):
         vx.prove(f"C20/fit/pixelwise/{lab}", vx.all_of([a == b for a, b in zip(out.elems(), _expected(inp, ish, osh, (py, px)))]))
         vx.observe("out", out.elems())
     vx.observe("ok", ok)
+
+
+def loader(ish, osh, stamped):
+    """The loader every file-reading model calls (load_cropped_and_aligned_image) with symbolic offsets: the cached route (the file
+    has a stamp) and the un-cached route (a file os.stat cannot see: URL, path relative to the working directory) place the same pixels."""
+    from pyxel.util import image as im
+
+    ish, osh = tuple(ish), tuple(osh)
+    inp = sym_array("in", ish)
+    py, px = vx.integer("py"), vx.integer("px")
+    vx.assume((py >= -3) & (py <= 3) & (px >= -3) & (px <= 3), "offsets around the detector")
+    for f in vars(im).values():
+        if callable(getattr(f, "cache_clear", None)):
+            f.cache_clear()
+    with Patch() as p:
+        _patch(p)
+        import pyxel.inputs
+
+        p.attr(pyxel.inputs, "load_image", lambda f: inp.copy(), "arbitrary file content")
+        p.attr(im, "load_image", lambda f: inp.copy(), "arbitrary file content") if hasattr(im, "load_image") else None
+        p.attr(im, "_get_file_stamp", (lambda f: (17, 4)) if stamped else (lambda f: None), "file with / without a stamp")
+        try:
+            out = im.load_cropped_and_aligned_image(shape=osh, filename="frames/img.npy", position_x=px, position_y=py)
+            ok = True
+        except ValueError:
+            ok = False
+    for f in vars(im).values():
+        if callable(getattr(f, "cache_clear", None)):
+            f.cache_clear()
+    lab = f"{ish[0]}x{ish[1]},{osh[0]}x{osh[1]},{'stamped' if stamped else 'no_stamp'}"
+    overlap = vx.all_of([py + ish[0] - 1 >= 0, py <= osh[0] - 1, px + ish[1] - 1 >= 0, px <= osh[1] - 1])
+    vx.prove(f"C20/loader/reject_iff_no_overlap/{lab}", overlap == ok)
+    if ok:
+        vx.prove(f"C20/loader/pixelwise/{lab}", tuple(out.shape) == osh and vx.all_of([a == b for a, b in zip(symnp.asarray(out).elems(), _expected(inp, ish, osh, (py, px)))]))
 
 
 def fidelity_place(kwargs, w):
@@ -343,6 +380,37 @@ def formats_witness(tier, seed, cases):
 def replay(oid, kwargs, model, data):
     import numpy as np
 
+    if data["fn"] == "loader":
+        import pyxel.inputs
+        from pyxel.util import image as im
+
+        ish, osh = tuple(kwargs["ish"]), tuple(kwargs["osh"])
+        a = np.array([float(model.get(f"in_{i}", i + 1)) for i in range(ish[0] * ish[1])]).reshape(ish)
+        if len(set(a.ravel().tolist())) < a.size:
+            a = np.arange(1.0, a.size + 1).reshape(ish)
+        py, px = int(model.get("py", 0)), int(model.get("px", 0))
+        for f in vars(im).values():
+            if callable(getattr(f, "cache_clear", None)):
+                f.cache_clear()
+        real_load, real_stamp = pyxel.inputs.load_image, im._get_file_stamp
+        pyxel.inputs.load_image = lambda f: a.copy()
+        im._get_file_stamp = (lambda f: (17, 4)) if kwargs["stamped"] else (lambda f: None)
+        try:
+            try:
+                out = im.load_cropped_and_aligned_image(shape=osh, filename="frames/img.npy", position_x=px, position_y=py)
+                ok = True
+            except ValueError:
+                ok, out = False, None
+        finally:
+            pyxel.inputs.load_image, im._get_file_stamp = real_load, real_stamp
+        exp = np.zeros(osh)
+        overlap = False
+        for i in range(osh[0]):
+            for j in range(osh[1]):
+                if 0 <= i - py < ish[0] and 0 <= j - px < ish[1]:
+                    exp[i, j] = a[i - py, j - px]
+                    overlap = True
+        return (ok != overlap) or (ok and not np.array_equal(out, exp)), {"offset_yx": [py, px], "input": a.tolist(), "placed": None if out is None else np.asarray(out).tolist(), "expected": exp.tolist() if overlap else "rejected"}
     if data["fn"] == "formats_witness":
         same, info = _format_case(model["fmt"], model["dtype"], int(model["variant"]))
         return (not same), info
